@@ -189,6 +189,13 @@ func (w *world) exec(op string) (string, int) {
 		}
 		return "ok", 0
 	}
+	if f[0] == "dropkey" {
+		// the leader record vanishes while its owner's local lease check still answers true
+		if _, err := w.e.Client.Delete(context.Background(), path.Join(w.root, "leader")); err != nil {
+			panic(err)
+		}
+		return "ok", 0
+	}
 	if len(f) < 2 {
 		return "bad-op", 0
 	}
@@ -390,6 +397,7 @@ func gen(w *world, t *trace.W, r *rng.R, maxOps int) {
 	clock := func(m int) int64 { return baseNs + skew[m] + elapsed }
 	parked := map[int]bool{}
 	leader := 1
+	keyDropped := false // the leader record was deleted out of band and nobody has campaigned since
 	w.run(t, "lead 1")
 	w.run(t, fmt.Sprintf("sync 1 %d none", clock(1)))
 	n := r.Range(8, maxOps)
@@ -403,7 +411,13 @@ func gen(w *world, t *trace.W, r *rng.R, maxOps int) {
 			m = r.Range(1, k)
 		}
 		if parked[m] {
-			switch r.Pick(50, 25, 10, 15) {
+			pick := r.Pick(50, 25, 10, 15)
+			if keyDropped && pick == 3 {
+				// a parked call that fails makes its caller reset the group outside the window mutex,
+				// which races with a queued writer: no queued writers while the record is gone
+				pick = 1
+			}
+			switch pick {
 			case 0:
 				w.run(t, fmt.Sprintf("finish %d %s", m, faults[r.Intn(len(faults))]))
 				delete(parked, m)
@@ -432,7 +446,15 @@ func gen(w *world, t *trace.W, r *rng.R, maxOps int) {
 			}
 			continue
 		}
-		switch r.Pick(34, 22, 7, 5, 3, 10, 7, 2, 1, 3) {
+		switch r.Pick(34, 22, 7, 5, 3, 10, 7, 2, 1, 3, 2) {
+		case 10:
+			w.run(t, "dropkey")
+			keyDropped = true
+			// the owner keeps trying: SetTSO (retried) and the updater run into the failed comparison
+			p, l, _ := tso.VerifView(w.mems[m].alloc)
+			for k := 0; k < 2; k++ {
+				w.run(t, fmt.Sprintf("setts %d %d %d none", m, p/1e6+int64(r.Range(3500, 20000)), l%262144))
+			}
 		case 0:
 			w.run(t, fmt.Sprintf("getts %d %d", m, counts[r.Intn(len(counts))]))
 		case 1:
@@ -480,6 +502,7 @@ func gen(w *world, t *trace.W, r *rng.R, maxOps int) {
 			if !parked[nl] {
 				w.run(t, fmt.Sprintf("lead %d", nl))
 				leader = nl
+				keyDropped = false
 				if r.Bool(4, 5) {
 					w.run(t, fmt.Sprintf("sync %d %d none", nl, clock(nl)))
 				}
